@@ -370,6 +370,14 @@ ATOL = 10 * CONV_TOL  # DESIGN section 4 rule 2: |d| <= tol_property * scale + 1
 # pressures: with a fixed-volume gas phase the engine iterates the pressure only until two successive values agree to
 # 0.001 atm (model.cpp: 'fabs(last_patm_x - patm_x) > 0.001' is its convergence test) -> its own criterion is added
 P_ATOL = 1e-3
+# scale floors: a log10 quantity (pH, pe, SI) is compared on max(|x|, 1) (1e-7 in a log10 value = 2.3e-7 relative in the
+# activity product itself); alkalinity and charge balance are signed sums of species amounts that largely cancel, their
+# scale is at least 1e-3 eq (the smallest ionic content the generator produces)
+FLOOR = {"log": 1.0, "pe": 1.0, "diff": 1e-3}
+
+
+def tolerance(kind, a, b):
+    return RTOL * max(abs(a), abs(b), FLOOR.get(kind, 0.0)) + (P_ATOL if kind == "gasp" else ATOL)
 
 
 def compare_tables(TA, TB, cols, redox, what, stats=None):
@@ -392,18 +400,59 @@ def compare_tables(TA, TB, cols, redox, what, stats=None):
                 a, b = float(a), float(b)
                 if math.isnan(a) and math.isnan(b):
                     continue
-                scale = max(abs(a), abs(b))
-                dev = (abs(a - b) - (P_ATOL if k == "gasp" else ATOL)) / scale if scale > 0 else 0.0
+                dev = abs(a - b) / tolerance(k, a, b)
                 if stats is not None:
                     stats[k] = max(stats.get(k, 0.0), dev)
-                if not dev <= RTOL and os.environ.get("C10_DEV_SOFT"):
+                if not dev <= 1.0 and os.environ.get("C10_DEV_SOFT"):
                     stats["SOFT " + what + " " + h.split("_")[0]] = dev
                     continue
-                if not dev <= RTOL:
+                if not dev <= 1.0:
                     raise Violation(what, "follow-up row %d column %s: %.17g on the original, %.17g on the restored state "
-                                    "(relative %.3g > 1e-7)" % (r, h, a, b, dev))
+                                    "(%.3g x the tolerance 1e-7 * scale + 1e-11)" % (r, h, a, b, dev))
             elif a != b:
                 raise Violation(what, "follow-up row %d column %s: %r vs %r" % (r, h, a, b))
+
+
+_PERT_OPTS = ("-total_h", "-total_o", "-cb", "-moles", "-m")
+
+
+def perturb(text, eps=3e-13):
+    """the dump with every amount (name/value rows such as -totals, and -total_h/-total_o/-cb/-moles/-m) changed by a
+    relative +-eps (alternating sign): ~30x the rounding of the 14-digit format.  Used to measure how strongly the
+    follow-up amplifies noise of the size the text format itself introduces (conditioning, DESIGN section 4 rule 7)."""
+    out, k = [], 0
+    for line in text.split("\n"):
+        body = line.strip()
+        toks = body.split()
+        if len(toks) == 2 and line[:1] in (" ", "\t") and not body.startswith("#") and _num(toks[1]) is not None and (
+                toks[0] in _PERT_OPTS or (not toks[0].startswith("-") and _num(toks[0]) is None)):
+            v = float(toks[1])
+            if v != 0.0 and math.isfinite(v):
+                k += 1
+                v *= 1.0 + (eps if k % 2 else -eps)
+                line = line[:len(line) - len(line.lstrip())] + "%s %.17g" % (toks[0], v)
+        out.append(line)
+    return "\n".join(out)
+
+
+def well_conditioned(T1, T2, cols, redox):
+    """True when the follow-up on the restored state and on the perturbed restored state agree to half the tolerance"""
+    if T2 is None or T1.rows != T2.rows or T1.cols != T2.cols or T1.rows < 2:
+        return False
+    kind_of = {h: k for h, k in cols}
+    for r in range(1, T1.rows):
+        for j, h in enumerate(T1.cells[0]):
+            a, b = T1.cells[r][j], T2.cells[r][j]
+            k = kind_of.get(h)
+            if k is None or (k == "pe" and redox != "o2"):
+                continue
+            if isinstance(a, (int, float)) and isinstance(b, (int, float)):
+                a, b = float(a), float(b)
+                if math.isnan(a) or math.isnan(b):
+                    continue
+                if abs(a - b) > 0.5 * tolerance(k, a, b):
+                    return False
+    return True
 
 
 # ------------------------------------------------------------------------------------------- the oracle
@@ -568,6 +617,15 @@ def _check(case, ctx, inst):
         TB, errB = run_follow(B, case)
         if TB is None:
             raise Violation("follow_restored", "the follow-up runs on the original but fails on the restored state: %s" % errB[:400])
+        # conditioning guard: the same follow-up on a copy restored from the dump with +-3e-13 relative noise
+        Bp = inst()
+        TBp = None
+        if Bp.run_string(perturb(D1)) == 0:
+            TBp, _e = run_follow(Bp, case)
+        if not well_conditioned(TB, TBp, case["cols"], redox):
+            classes.append("followup_not_compared_ill_conditioned")
+            poised = False
+    if poised:
         compare_tables(TA, TB, case["cols"], redox, "follow_restored", stats)
         # (5c) follow-up on the Serializer copy (+ MIX / REACTION, which the Serializer does not carry, from the dump text)
         extra = block_text(D1, lambda k, n: k in ("MIX", "REACTION"))
@@ -594,7 +652,7 @@ def _check(case, ctx, inst):
                 compare_tables(TA, TE, case["cols"], redox, "follow_solution_modify", stats)
                 classes.append("modify_leg_compared")
         classes.append("followup_compared")
-    else:
+    elif redox not in ("inert", "o2"):
         classes.append("followup_not_compared_unpoised")
     for k in [k for k in stats if k.startswith("SOFT ")]:
         classes.append(k)
